@@ -45,6 +45,25 @@ Section Ref.
     end.
 End Ref.
 
+(* the whole call in closed form, with the property's constants: what get_threshold is specified to
+   return for given raw thresholds (None = raises) *)
+Definition ref_run (mul : Q -> Q -> Q) (inp : inputs) (lo hi : option Q) : option (val * val) :=
+  let g := ref_global mul (in_raw_g inp) (in_cf inp) lo hi in
+  match in_mod inp with
+  | MGlobal => Some (VNum (clamp_opt lo hi g), VNum g)
+  | _ => match lo, hi with
+         | Some l, Some h => Some (VArr (ref_local mul band_lo band_hi sentinel_value inp l h g), VNum g)
+         | _, _ => None
+         end
+  end.
+(* same wire format as Model.ThresholdRun.entry_run *)
+Definition entry_ref (x : sx) : sx :=
+  let inp := mkIn (as_modifier (arg 0 x)) (as_Q (arg 1 x)) (as_Q (arg 2 x)) (as_Qs (arg 5 x)) (as_lab0 (arg 6 x)) in
+  match ref_run fmul inp (as_optQ (arg 3 x)) (as_optQ (arg 4 x)) with
+  | Some (l, g) => L [of_val l; of_val g]
+  | None => L []
+  end.
+
 (* ---- boolean checker, evaluated on what get_threshold returned *)
 Definition in_rangeb (lo hi : option Q) (x : Q) : bool :=
   match lo with Some l => Qle_bool l x | None => true end &&
